@@ -997,6 +997,283 @@ fn run_long(out: &mut Out, rng: &mut Rng, work: &str) -> BTreeMap<String, u64> {
 	stats
 }
 
+impl Gen {
+	/// Build a block from explicit tx specs on `parent`; the builder chain's verdict decides
+	/// whether it is recorded as valid (processed there) or as an invalid variant.
+	fn add_scripted(&mut self, parent: usize, diff: u64, specs: &[TxSpec], label: &str) -> Option<usize> {
+		let mut txs = vec![];
+		for s in specs {
+			txs.push(self.kit.build_tx(s).ok()?);
+		}
+		let b = self.kit.assemble(parent, diff, &txs, 0).ok()?;
+		match self.kit.builder().process_block(b.clone(), grin_chain::Options::SKIP_POW) {
+			Ok(_) => {
+				let st = self.state_after(parent, &b);
+				let id = self.kit.record(b, parent, vec![], true);
+				self.states.insert(id, st);
+				self.valid.push(id);
+				self.stat(&format!("c13:accepted-by-builder:{}", label));
+				Some(id)
+			}
+			Err(e) => {
+				let id = self.kit.record(b, parent, vec![format!("kind:{}", label)], false);
+				self.invalid.push(id);
+				self.stat(&format!("c13:rejected-by-builder:{}:{}", label, error_class(&e)));
+				Some(id)
+			}
+		}
+	}
+}
+
+fn tx_desc(kit: &Kit, tx: &grin_core::core::Transaction) -> String {
+	let ins: Vec<grin_core::core::CommitWrapper> = tx.inputs().into();
+	let i: Vec<String> = ins.iter().map(|c| kit.by_commit.get(&c.commitment()).map(|x| format!("o{}", x)).unwrap_or("o?".into())).collect();
+	let o: Vec<String> = tx.outputs().iter().map(|c| kit.by_commit.get(&c.commitment()).map(|x| format!("o{}", x)).unwrap_or("o?".into())).collect();
+	let k: Vec<String> = tx
+		.kernels()
+		.iter()
+		.map(|k| match k.features {
+			grin_core::core::KernelFeatures::Coinbase => "cb".to_string(),
+			grin_core::core::KernelFeatures::Plain { fee } => format!("p:{}", fee.fee()),
+			grin_core::core::KernelFeatures::HeightLocked { fee, lock_height } => format!("hl:{}:{}", fee.fee(), lock_height),
+			grin_core::core::KernelFeatures::NoRecentDuplicate { fee, relative_height } => {
+				format!("nrd:{}:{}:{}", fee.fee(), u64::from(relative_height), hex(&k.excess.0[..8]))
+			}
+		})
+		.collect();
+	format!("ins=[{}] outs=[{}] kers=[{}]", i.join(","), o.join(","), k.join(","))
+}
+
+/// C13: spends and locked kernels placed one below / at / one above each threshold, on the main
+/// chain and on forks (coinbase on the other side of the fork point; duplicate-excess NRD
+/// kernels before and after a reorganisation that re-applies fork blocks), plus the pool-facing
+/// admission checks of the chain evaluated at every head.
+fn run_c13(out: &mut Out, rng: &mut Rng, work: &str) -> BTreeMap<String, u64> {
+	out.raw("chain reset");
+	let kit = Kit::new(&format!("{}/builder_c13", work));
+	let mut g = Gen {
+		kit,
+		states: BTreeMap::new(),
+		valid: vec![],
+		invalid: vec![],
+		stats: BTreeMap::new(),
+		outs_described: 0,
+		blks_described: 0,
+	};
+	let mut s0 = AState::default();
+	s0.utxo.insert(0, (0, true));
+	g.states.insert(0, s0);
+	// coinbase output id of a valid block
+	let cb_of = |g: &Gen, b: usize| -> usize {
+		let blk = &g.kit.blks[b].block;
+		let o = blk.outputs().iter().find(|o| o.is_coinbase()).unwrap();
+		*g.kit.by_commit.get(&o.commitment()).unwrap()
+	};
+	// ---- trunk: 13 blocks; odd heights carry an extra tx so the coinbase is not always alone
+	let mut trunk = vec![0usize];
+	let mut plain: Vec<usize> = vec![];
+	for h in 1..=13u64 {
+		let parent = *trunk.last().unwrap();
+		let mut specs = vec![];
+		if h % 2 == 1 && h >= 5 {
+			if let Some(o) = g.spendable(parent, h).into_iter().find(|o| g.kit.outs[*o].coinbase) {
+				let v = g.kit.outs[o].value;
+				let kernel = if h == 11 { KSpec::Nrd(2, 3, 0) } else { KSpec::Plain(2) };
+				specs.push(TxSpec { inputs: vec![o], outputs: vec![(v / 2, None), (v - v / 2 - 2, None)], kernel });
+			}
+		}
+		let before = g.kit.outs.len();
+		if let Some(id) = g.add_scripted(parent, 2, &specs, "trunk") {
+			if g.kit.blks[id].valid {
+				trunk.push(id);
+				for o in before..g.kit.outs.len() {
+					if !g.kit.outs[o].coinbase {
+						plain.push(o);
+					}
+				}
+			}
+		}
+	}
+	let spend = |o: usize, g: &Gen, k: KSpec| -> TxSpec {
+		let v = g.kit.outs[o].value;
+		TxSpec { inputs: vec![o], outputs: vec![(v - 3, None)], kernel: k }
+	};
+	// ---- coinbase maturity: one below / at / one above, on the trunk and from a side fork
+	for c in [1usize, 2, 4, 5, 7] {
+		if c + 3 >= trunk.len() {
+			continue;
+		}
+		let cb = cb_of(&g, trunk[c]);
+		let h_c = g.kit.blks[trunk[c]].height;
+		// on the trunk's own blocks as parents (these become fork blocks or invalid variants)
+		for (delta, label) in [(1usize, "maturity:one-below"), (2, "maturity:at"), (3, "maturity:one-above")] {
+			let parent = trunk[c + delta];
+			let _ = h_c;
+			g.add_scripted(parent, 1, &[spend(cb, &g, KSpec::Plain(3))], label);
+		}
+		// the spender sits on a side fork that leaves the trunk right after the coinbase's block
+		if let Some(s1) = g.add_scripted(trunk[c], 1, &[], "side-fork") {
+			if g.kit.blks[s1].valid {
+				g.add_scripted(s1, 1, &[spend(cb, &g, KSpec::Plain(3))], "maturity:fork:one-below");
+				if let Some(s2) = g.add_scripted(s1, 1, &[], "side-fork") {
+					if g.kit.blks[s2].valid {
+						g.add_scripted(s2, 1, &[spend(cb, &g, KSpec::Plain(3))], "maturity:fork:at");
+					}
+				}
+			}
+		}
+	}
+	// ---- lock heights: h-1, h, h+1
+	for k in [4usize, 8] {
+		if k >= trunk.len() || plain.is_empty() {
+			continue;
+		}
+		let parent = trunk[k];
+		let h = g.kit.blks[parent].height + 1;
+		for (lock, label) in [(h - 1, "lock:below"), (h, "lock:at"), (h + 1, "lock:above")] {
+			let avail: Vec<usize> = g.spendable(parent, h).into_iter().filter(|o| !g.kit.outs[*o].coinbase).collect();
+			if let Some(o) = avail.first() {
+				g.add_scripted(parent, 1, &[spend(*o, &g, KSpec::HeightLocked(3, lock))], label);
+			}
+		}
+	}
+	// ---- NRD on the trunk: slot 0 occurred at height 11 (rel 3): repeat at 13 (too early) / 14
+	let n = trunk.len() - 1;
+	let pick_plain = |g: &Gen, parent: usize, h: u64| -> Option<usize> {
+		g.spendable(parent, h).into_iter().find(|o| !g.kit.outs[*o].coinbase)
+	};
+	if n >= 13 {
+		if let Some(o) = pick_plain(&g, trunk[12], 13) {
+			g.add_scripted(trunk[12], 1, &[spend(o, &g, KSpec::Nrd(3, 3, 0))], "nrd:trunk:distance-2-of-3");
+		}
+		if let Some(o) = pick_plain(&g, trunk[13], 14) {
+			g.add_scripted(trunk[13], 1, &[spend(o, &g, KSpec::Nrd(3, 3, 0))], "nrd:trunk:distance-3-of-3");
+		}
+		// ---- NRD across a reorganisation: fork from height 9
+		let mut f = trunk[9];
+		let mut fork = vec![];
+		// f10 carries slot 1 (rel 3); f11 is heavy enough to win, re-applying f10 on every node
+		if let Some(o) = pick_plain(&g, f, 10) {
+			if let Some(id) = g.add_scripted(f, 1, &[spend(o, &g, KSpec::Nrd(3, 3, 1))], "nrd:fork:first") {
+				if g.kit.blks[id].valid {
+					fork.push(id);
+					f = id;
+				}
+			}
+		}
+		if let Some(id) = g.add_scripted(f, 40, &[], "fork:heavy") {
+			if g.kit.blks[id].valid {
+				fork.push(id);
+				f = id;
+			}
+		}
+		if fork.len() == 2 {
+			// at height 12 on the fork: slot 1 again, distance 2 of 3 -> must be refused
+			if let Some(o) = pick_plain(&g, f, 12) {
+				g.add_scripted(f, 1, &[spend(o, &g, KSpec::Nrd(3, 3, 1))], "nrd:fork:after-reorg:distance-2-of-3");
+			}
+			// slot 0 occurred only on the trunk (height 11): on the fork it is free
+			if let Some(o) = pick_plain(&g, f, 12) {
+				g.add_scripted(f, 1, &[spend(o, &g, KSpec::Nrd(3, 3, 0))], "nrd:fork:excess-only-on-other-fork");
+			}
+			if let Some(id) = g.add_scripted(f, 1, &[], "fork:extend") {
+				if g.kit.blks[id].valid {
+					// height 13: distance 3 of 3 -> fine
+					if let Some(o) = pick_plain(&g, id, 13) {
+						g.add_scripted(id, 1, &[spend(o, &g, KSpec::Nrd(3, 3, 1))], "nrd:fork:after-reorg:distance-3-of-3");
+					}
+				}
+			}
+		}
+	}
+	// transactions for the pool-facing checks (built once, evaluated at every head)
+	let mut probes: Vec<(String, grin_core::core::Transaction)> = vec![];
+	for c in [1usize, 3, 6, 9, 11] {
+		if c < trunk.len() {
+			let cb = cb_of(&g, trunk[c]);
+			if let Ok(tx) = g.kit.build_tx(&spend(cb, &g, KSpec::Plain(3))) {
+				probes.push((format!("spend-coinbase-of-h{}", c), tx));
+			}
+		}
+	}
+	for (i, lock) in [5u64, 9, 12].iter().enumerate() {
+		if let Some(o) = plain.get(i) {
+			if let Ok(tx) = g.kit.build_tx(&spend(*o, &g, KSpec::HeightLocked(3, *lock))) {
+				probes.push((format!("height-locked-{}", lock), tx));
+			}
+		}
+	}
+	for (slot, rel) in [(0usize, 3u64), (1, 3), (1, 2)] {
+		if let Some(o) = plain.get(3 + slot) {
+			if let Ok(tx) = g.kit.build_tx(&spend(*o, &g, KSpec::Nrd(3, rel, slot))) {
+				probes.push((format!("nrd-slot{}-rel{}", slot, rel), tx));
+			}
+		}
+	}
+	g.describe_new(out);
+	let all: Vec<usize> = (1..g.kit.blks.len()).collect();
+	let kit = &g.kit;
+	for si in 0..2 {
+		let name = format!("s{}", si);
+		let order: Vec<usize> = if si == 0 {
+			all.clone()
+		} else {
+			// parents first, otherwise random
+			let mut done: BTreeSet<usize> = BTreeSet::new();
+			done.insert(0);
+			let mut rem = all.clone();
+			let mut res = vec![];
+			while !rem.is_empty() {
+				let ready: Vec<usize> = rem.iter().cloned().filter(|i| done.contains(&kit.blks[*i].parent.unwrap())).collect();
+				if ready.is_empty() {
+					break;
+				}
+				let p = *rng.pick(&ready);
+				rem.retain(|x| *x != p);
+				if kit.blks[p].valid {
+					done.insert(p);
+				}
+				res.push(p);
+			}
+			res
+		};
+		let subj = Subject::new(&format!("{}/c13_{}", work, name), &kit.genesis);
+		out.raw(&format!("chain new {}", name));
+		for i in order {
+			let r = subj.deliver_block(&kit.blks[i].block);
+			out.line(&format!("chain deliver {} b{}", name, i), &r);
+			out.line(&format!("chain obs {}", name), &subj.obs(kit));
+			if r == "ok:head" {
+				for (_, tx) in &probes {
+					let d = tx_desc(kit, tx);
+					let m = match subj.c().verify_coinbase_maturity(&tx.inputs()) {
+						Ok(_) => "ok".to_string(),
+						Err(e) => format!("err:{}", error_class(&e)),
+					};
+					out.line(&format!("chain txmat {} {}", name, d), &m);
+					let l = match subj.c().verify_tx_lock_height(tx) {
+						Ok(_) => "ok".to_string(),
+						Err(e) => format!("err:{}", error_class(&e)),
+					};
+					out.line(&format!("chain txlock {} {}", name, d), &l);
+					let v = match subj.c().validate_tx(tx) {
+						Ok(_) => "ok".to_string(),
+						Err(e) => format!("err:{}", error_class(&e)),
+					};
+					out.line(&format!("chain txval {} {}", name, d), &v);
+				}
+			}
+		}
+		let v = match subj.c().validate(false) {
+			Ok(_) => "ok".to_string(),
+			Err(e) => format!("err:{}", error_class(&e)),
+		};
+		out.line(&format!("chain validate {}", name), &v);
+	}
+	*g.stats.entry("c13:probe-transactions".into()).or_insert(0) += probes.len() as u64;
+	g.stats.clone()
+}
+
 fn main() {
 	quiet_panics();
 	setup_globals();
@@ -1007,6 +1284,14 @@ fn main() {
 	let n: usize = args.get(1).and_then(|s| s.parse().ok()).unwrap_or(if thorough { 10 } else { 2 });
 	let mut out = Out::stdout();
 	let mut total: BTreeMap<String, u64> = BTreeMap::new();
+	if args.get(1).map(|s| s == "c13").unwrap_or(false) {
+		let st = run_c13(&mut out, &mut rng, &work);
+		for (k, v) in st {
+			out.raw(&format!("#STAT {}={}", k, v));
+		}
+		out.flush();
+		return;
+	}
 	if args.get(1).map(|s| s == "long").unwrap_or(false) {
 		let st = run_long(&mut out, &mut rng, &work);
 		for (k, v) in st {
